@@ -57,6 +57,10 @@ pub enum FOp {
     Call { k: u8, kind: CallKind },
     DiskResolve { i: u16, res: DiskRes },
     FetchResolve { i: u16, ok: bool },
+    /// the origin of call `i` produces its value, and while it does (inside that same poll of the fetch task, i.e.
+    /// after the task last looked at its flight) an explicit insert of the key runs to completion - what a second
+    /// thread can do at any time. Equivalent to `Insert` followed by `FetchResolve` for the protocol.
+    FetchResolveWhileInserting { i: u16 },
     DropCaller { j: u16 },
     Cancel,
     Insert { k: u8 },
@@ -87,6 +91,9 @@ struct Slot<T> {
     waker: Option<Waker>,
     dropped: bool,
     resolved: bool,
+    /// runs inside the poll that returns the result, before it returns: "something else happened while the origin
+    /// was producing its value" (the harness's stand-in for a second thread)
+    pre: Option<Box<dyn FnOnce() + Send>>,
 }
 
 struct HFut<T>(Arc<Mutex<Slot<T>>>);
@@ -97,7 +104,14 @@ impl<T> Future for HFut<T> {
         let mut s = self.0.lock();
         s.polled = true;
         match s.result.take() {
-            Some(r) => Poll::Ready(r),
+            Some(r) => {
+                let pre = s.pre.take();
+                drop(s);
+                if let Some(pre) = pre {
+                    pre();
+                }
+                Poll::Ready(r)
+            }
             None => {
                 s.waker = Some(cx.waker().clone());
                 Poll::Pending
@@ -119,6 +133,7 @@ fn slot<T>() -> Arc<Mutex<Slot<T>>> {
         waker: None,
         dropped: false,
         resolved: false,
+        pre: None,
     }))
 }
 
@@ -204,6 +219,7 @@ pub struct FetchFlags {
     pub disk_hit: bool,
     pub disk_err: bool,
     pub refetch_after_failure: bool,
+    pub insert_during_final_poll: bool,
 }
 
 pub struct FetchJudgement {
@@ -405,6 +421,7 @@ pub fn run_fetch_case(case: &FCase) -> FetchJudgement {
     let mut c06: Option<Failure> = None;
     let mut c11: Option<Failure> = None;
     let mut held: Vec<Entry> = vec![];
+    let held_async: Arc<Mutex<Vec<Entry>>> = Arc::new(Mutex::new(vec![]));
     // steps at which each origin was first seen polled, per key last explicit insert step (single-flight clause)
     let mut origin_polled_step: Vec<Option<usize>> = vec![];
     let mut last_insert_step: BTreeMap<u64, usize> = BTreeMap::new();
@@ -560,6 +577,40 @@ pub fn run_fetch_case(case: &FCase) -> FetchJudgement {
                             } else {
                                 origin_vals[i] = Some(Err(()));
                             }
+                        }
+                    }
+                }
+            }
+            FOp::FetchResolveWhileInserting { i } => {
+                if !callers.is_empty() {
+                    let i = midx(*i, callers.len());
+                    let awaiting = {
+                        let g = callers[i].origin.as_ref().unwrap().lock();
+                        g.polled && !g.resolved && !g.dropped
+                    };
+                    // a fetch whose flight is already closed will not poll its origin again: nothing can happen
+                    // "during its final poll"
+                    if origin_vals[i].is_none() && awaiting && !m.orphan_origins.contains(&i) {
+                        let key = callers[i].key;
+                        // the explicit insert (gets the smaller id: it is issued first)
+                        let ins_id = next_id;
+                        next_id += 1;
+                        let id = next_id;
+                        next_id += 1;
+                        let (c2, h2) = (cache.clone(), held_async.clone());
+                        callers[i].origin.as_ref().unwrap().lock().pre = Some(Box::new(move || {
+                            let e = c2.insert(key, FVal { id: ins_id, key, reject: false });
+                            h2.lock().push(e);
+                        }));
+                        if resolve(callers[i].origin.as_ref().unwrap(), Ok(FVal { id, key, reject: false })) {
+                            origin_vals[i] = Some(Ok(id));
+                            // protocol: insert returns, then the fetch result arrives
+                            m.emplace(key, ins_id, true);
+                            last_insert_step.insert(key, step);
+                            m.flags.insert_during_final_poll = true;
+                            ops.insert(step + 1, FOp::Settle);
+                        } else {
+                            callers[i].origin.as_ref().unwrap().lock().pre = None;
                         }
                     }
                 }
@@ -793,6 +844,7 @@ pub fn run_fetch_case(case: &FCase) -> FetchJudgement {
     }
     drop(callers);
     drop(held);
+    drop(held_async);
     drop(rt);
     FetchJudgement { c06, c11, flags: m.flags }
 }
